@@ -122,6 +122,7 @@ def check(ctx):
     check_worker_outputs(ctx, pa)
     check_recorded_path_first(ctx)
     check_outputs_created_afresh(ctx, pa)
+    check_stale_output_removed(ctx)
     check_finalisers_release(ctx)
     # settings this property depends on are handed down every call
     # chain, never left to a callee's default (sa/rules/forwarding.py)
@@ -985,3 +986,113 @@ def check_finalisers_release(ctx):
     if owners < 2:
         raise AnalysisError(f'only {owners} classes that own a scratch '
                             'directory found')
+
+
+def _path_calls(cfg, rd, name):
+    """(unlink nodes, guard nodes, write nodes) of the path held in the
+    local `name`"""
+    unlinks, guards, writes = set(), set(), set()
+    for node in cfg.nodes:
+        if node.id not in rd.live:
+            continue
+        if node.kind == 'if':
+            t = node.ast.test
+            while isinstance(t, ast.UnaryOp) and isinstance(t.op, ast.Not):
+                t = t.operand
+            if isinstance(t, ast.Call) and isinstance(
+                    t.func, ast.Attribute) and t.func.attr in (
+                        'exists', 'is_file') and (
+                    (isinstance(t.func.value, ast.Name)
+                     and t.func.value.id == name) or any(
+                         isinstance(a, ast.Name) and a.id == name
+                         for a in t.args)):
+                guards.add(node.id)
+            continue
+        for c in cfg.calls_in(node):
+            f = c.func
+            if isinstance(f, ast.Attribute) and f.attr == 'unlink' \
+                    and isinstance(f.value, ast.Name) and f.value.id == name:
+                unlinks.add(node.id)
+                continue
+            if isinstance(f, ast.Attribute) and f.attr in (
+                    'remove', 'unlink') and any(
+                        isinstance(a, ast.Name) and a.id == name
+                        for a in c.args):
+                unlinks.add(node.id)
+                continue
+            if isinstance(f, ast.Attribute) and isinstance(
+                    f.value, ast.Name) and f.value.id == name:
+                continue            # a method of the path itself
+            if isinstance(f, ast.Attribute) and isinstance(
+                    f.value, ast.Name) and f.value.id in (
+                        'log', 'logger', 'warnings'):
+                continue
+            args = list(c.args) + [kw.value for kw in c.keywords]
+            if any(isinstance(a, ast.Name) and a.id == name for a in args):
+                nm = f.attr if isinstance(f, ast.Attribute) else getattr(
+                    f, 'id', '')
+                if nm in ('Path', 'str', 'print', 'isinstance', 'len'):
+                    continue
+                writes.add(node.id)
+    return unlinks, guards, writes
+
+
+def check_stale_output_removed(ctx, rule='R-FRESH/stale-output-removed'):
+    """A function that removes the file at one of its paths *without
+    having written it* (the removal is not reachable from any of its own
+    writes to that path) is clearing what an earlier run left there: the
+    code itself says a file found at that location must not survive a run
+    that does not write it.  Then that must hold on every path: every way
+    from the entry to a normal return passes either a step that writes the
+    path or the removal (or the `exists()` test that guards it).  A path
+    that does neither leaves the earlier run's file in place, and what is
+    at the output location afterwards depends on history."""
+    db = ctx.db
+    n = 0
+    for fi in db.iter_functions():
+        if fi.module.short.startswith(('gpu_utils', 'test_utils')):
+            continue
+        names = set()
+        for c in ast.walk(fi.node):
+            if isinstance(c, ast.Call) and isinstance(
+                    c.func, ast.Attribute) and c.func.attr == 'unlink' \
+                    and isinstance(c.func.value, ast.Name):
+                names.add(c.func.value.id)
+        if not names:
+            continue
+        cfg = cfg_of(fi)
+        rd = rd_of(fi)
+        for name in sorted(names):
+            unlinks, guards, writes = _path_calls(cfg, rd, name)
+            if not unlinks or not writes:
+                continue
+            ok_edge = lambda a, b, lab: b != cfg.exc_exit  # noqa: E731
+            reach_w = set()
+            for w in writes:
+                reach_w |= cfg.reachable(w, edge_ok=ok_edge) - {w}
+            stale = {u for u in unlinks if u not in reach_w}
+            if not stale:
+                continue       # write-then-remove: a probe, or clean-up
+            # the guards that lead to a stale removal
+            settle = set(writes) | stale
+            for g in guards:
+                if any(cfg.path(g, {u}, edge_ok=ok_edge) is not None
+                       for u in stale):
+                    settle.add(g)
+            n += 1
+            ctx.touch(fi)
+            okp, wit = cfg.must_pass(
+                cfg.entry, {cfg.exit}, lambda x: x.id in settle,
+                edge_ok=ok_edge)
+            ctx.ob(rule, f'{fi.qual}:{name}', fi.loc(), okp,
+                   f'every normal path either writes `{name}` or removes '
+                   'what was found there' if okp else
+                   f'{fi.name} removes a file found at `{name}` on some '
+                   'paths, but there is a path to a normal return that '
+                   'neither writes it nor removes it: a file left there '
+                   'by an earlier run survives, and the state of the '
+                   'output location depends on history',
+                   witness=cfg.fmt_path(wit) if wit else None)
+    if n < 1:
+        raise AnalysisError('no function that clears a stale output file '
+                            'was found (expected _validate_h5ad)')
